@@ -60,6 +60,30 @@ impl Monitor for C05 {
                 }
                 Err(e) => return Err(viol("C05.query_vs_storage", format!("Farms{{}} query failed: {e}"))),
             }
+            // the filtered farm listings (by LP token, by reward denom), in small pages as well
+            if post.farms.len() >= 2 {
+                use mantra_dex_std::farm_manager::FarmsBy;
+                let pick = &post.farms[c.step_no % post.farms.len()];
+                let lim = 1 + (c.step_no as u32 / 4) % 3;
+                for (what, filter, want) in [
+                    ("lp_denom", FarmsBy::LpDenom(pick.lp_denom.clone()), post.farms.iter().filter(|f| f.lp_denom == pick.lp_denom).cloned().collect::<Vec<_>>()),
+                    ("farm_asset", FarmsBy::FarmAsset(pick.farm_asset.denom.clone()), post.farms.iter().filter(|f| f.farm_asset.denom == pick.farm_asset.denom).cloned().collect::<Vec<_>>()),
+                ] {
+                    match c.w.farms_via_query_by(Some(filter), lim) {
+                        Ok(mut q) => {
+                            let n = q.len();
+                            let mut want = want;
+                            q.sort_by(|a, b| a.identifier.cmp(&b.identifier));
+                            want.sort_by(|a, b| a.identifier.cmp(&b.identifier));
+                            if q != want {
+                                return Err(viol("C05.query_vs_storage", format!("Farms{{by {what}}} read in pages of {lim} lists {n} farms {:?}, storage holds {:?}", q.iter().map(|f| &f.identifier).collect::<Vec<_>>(), want.iter().map(|f| &f.identifier).collect::<Vec<_>>())));
+                            }
+                        }
+                        Err(e) => return Err(viol("C05.query_vs_storage", format!("Farms{{by {what}}} query failed: {e}"))),
+                    }
+                }
+                c.stats.bump("probe.c05.filtered_farm_listing_paged");
+            }
             let mut owners: Vec<String> = post.positions.iter().map(|p| p.receiver.to_string()).collect();
             owners.sort();
             owners.dedup();
